@@ -121,7 +121,7 @@ class Spec:
     """What the reference needs to know about a solver configuration."""
 
     def __init__(self, *, n, d, field, C, lin, fact, damp=0.0, base=None, calib="none",
-                 mle_correction=True, cinit=False, mp=False):
+                 mle_correction=True, cinit=False, mp=False, drift=None):
         self.n, self.d, self.field, self.lin, self.fact = n, d, field, lin, fact
         self.order = field.order
         self.N = Num(mp)
@@ -131,6 +131,9 @@ class Spec:
         self.calib = calib
         self.mle_correction = mle_correction
         self.cinit = cinit
+        # drift=None: integrated Wiener process; otherwise the (n*d x n*d) drift matrix F of the
+        # documented SDE dx = F x dt + (e_q (x) diag(base)) dW  (exponential / OU / Matern priors)
+        self.drift = None if drift is None else np.asarray(drift, float)
 
     # documented linearisation of the ODE constraint  u^(k) - f(u, .., t) = 0  at mean m
     def linearise(self, m, t):
@@ -181,6 +184,49 @@ class Spec:
         N = self.N
         s = self.base * (sigma if np.ndim(sigma) else N.num(1) * sigma)
         return s
+
+
+def transition(spec, h, sigma):
+    """Exact discretisation (Phi, Q) of the prior over a step h with calibrated scale sigma."""
+    N, n, d = spec.N, spec.n, spec.d
+    if spec.drift is None:
+        Phi1, Q1 = iwp_1d(n - 1, h, N)
+        return kron(Phi1, N.eye(d)), process_noise(spec, Q1, sigma)
+    s_ = spec.scale_matrix(sigma)
+    B = np.zeros((n * d, d)) if not N.mp else N.zeros(n * d, d)
+    for a in range(d):
+        B[(n - 1) * d + a, a] = s_[a]
+    return van_loan(N, spec.drift, B, h)
+
+
+def van_loan(N, F, B, h):
+    """expm(F h) and int_0^h e^{Fs} B B^T e^{F^T s} ds via Van Loan's block exponential."""
+    nn = F.shape[0]
+    if not N.mp:
+        import scipy.linalg
+
+        M = np.zeros((2 * nn, 2 * nn))
+        M[:nn, :nn] = F * h
+        M[:nn, nn:] = (B @ B.T) * h
+        M[nn:, nn:] = -F.T * h
+        E = scipy.linalg.expm(M)
+        Phi = E[:nn, :nn]
+        Q = E[:nn, nn:] @ Phi.T
+        return Phi, (Q + Q.T) / 2
+    mpm = N.mpm
+    M = mpm.matrix(2 * nn, 2 * nn)
+    BBt = B @ B.T
+    hh = mpm.mpf(float(h))
+    for i in range(nn):
+        for j in range(nn):
+            M[i, j] = mpm.mpf(float(F[i, j])) * hh
+            M[i, nn + j] = BBt[i, j] * hh
+            M[nn + i, nn + j] = -mpm.mpf(float(F[j, i])) * hh
+    E = mpm.expm(M, method="taylor")
+    Phi = np.array([[E[i, j] for j in range(nn)] for i in range(nn)], dtype=object)
+    E12 = np.array([[E[i, nn + j] for j in range(nn)] for i in range(nn)], dtype=object)
+    Q = E12 @ Phi.T
+    return Phi, (Q + Q.T) / 2
 
 
 def process_noise(spec, Q1, sigma):
@@ -305,20 +351,18 @@ def ekf(spec, ts, m0, P0, nodes=None, perturb=0.0):
             h = ts[j] - _last_step_time(ts, nodes, i)
             # local scale is computed from the state at the last *accepted* step end
             m_from, t_from_step = _state_at_last_step(out, ts, nodes, i)
-            Phi1, Q1 = iwp_1d(q, ts[j] - t_from_step, N)
-            Phi = kron(Phi1, N.eye(d))
+            Phi, Q_unit = transition(spec, ts[j] - t_from_step, unit)
             mu = Phi @ m_from
             H, b = spec.linearise(mu, ts[j])
-            S0 = H @ process_noise(spec, Q1, unit) @ H.T
+            S0 = H @ Q_unit @ H.T
             for a in range(d):
                 S0[a, a] = S0[a, a] + spec.damp * spec.damp
             sigma = spec.whitened_rms(H @ mu + b, S0)
         for kk in range(i, (j if has_step else len(ts) - 1) + 1):
             h = ts[kk] - ts[kk - 1]
-            Phi1, Q1 = iwp_1d(q, h, N)
-            Phi = kron(Phi1, N.eye(d))
+            Phi, Qs = transition(spec, h, sigma)
             mp = Phi @ m
-            Pp = Phi @ P @ Phi.T + process_noise(spec, Q1, sigma)
+            Pp = Phi @ P @ Phi.T + Qs
             Pp = (Pp + Pp.T) / 2
             if nodes[kk] == "step":
                 H, b = spec.linearise(mp, ts[kk])
